@@ -55,6 +55,15 @@ CLAIMED.update({
             "symbolic decision tables over go/ssa (abstract interpreter) compared with reference truth tables; typed-AST wiring checks; stringer/switch table decoding", "§4 C01"),
 })
 
+CLAIMED.update({
+    "C03": ("Static decision of structural necessary conditions of JSON preservation: a field-based taint analysis shows every JSON-decoded string (keys, values and everything that stores them) passes a JSON string encoder before it is written into an example; the literal branch of the example builder returns the raw lexeme span; members are emitted by position from ordered slices. Does not decide value equality of the round trip nor that every JSON text is accepted (see DESIGN C03.subset).",
+            "field-based, context-insensitive taint analysis on the typed AST (decoded string -> JSON sink); structural checks", "§4 C03"),
+    "C06": ("Static decision of structural necessary conditions of the recursion check and Example() termination: visit/leave pairing by defer; optional/nullable test dominating the walk; leaf cases; object = AND, alternative = OR; the recursive call must reuse the lookup table (violated on the pinned tree: known finding, printed as such); bounded type expansion in the example builder (test < increment < deferred decrement < recursion); separator discipline of JSON-emitting loops. Does not decide both directions of the property over all reference graphs.",
+            "typestate/ordering checks on the typed AST, must-alias of table argument, separator-discipline rule", "§4 C06"),
+    "C08": ("Wiring-level static decision: every rule name the OpenAPI package looks up is a member of the decoded constraint-name table and each OpenAPI keyword constructor reads the rule of the documented name; decoded schema text reaches OpenAPI JSON only through a JSON string encoder (taint analysis over struct fields, parameters and results, with the one guarded encoder shape-checked); separators of hand-written marshalers. Does not decide that an example validates against the generated schema (needs a JSON-Schema evaluator at run time).",
+            "constant-table membership + typed-AST wiring table; field-based taint analysis; separator-discipline rule", "§4 C08"),
+})
+
 NOT_YET = {}
 
 NOT_APPLICABLE = {
